@@ -950,6 +950,8 @@ def expr_sx(e, prog):
         return ["nil"]
     if t == "var":
         return ["var", e[1]]
+    if t == "dimvar":
+        return ["dimvar", e[1]]
     if t == "un":
         return ["un", e[1], R(e[2])]
     if t == "bin":
@@ -1009,7 +1011,193 @@ def expr_sx(e, prog):
         return ["slice", R(e[1])] + [R(a) for a in e[2]]
     raise Unsupported("expression %s" % t)
 
+# ---- uses of extent / bound names (`D` of `a[D]`, `f`, `t` of `r[f .. t]`): the evaluator computes them where they are
+# used (Expr.dimVar); which uses those are is a matter of lexical resolution, done here on the way to the s-expression
+
+# scope entries: [name, is_dim, alias]  (innermost last).  A nested function that uses an extent / bound name of an enclosing
+# function's parameter captures its VALUE when the closure is created (func_freevar_emit: ID_DIM_LOCAL / ID_DIM_SLICE /
+# the range's cell at that moment; a nil parameter raises nil_pointer THERE): `let D@cap = D` is inserted in front of the
+# function and the uses inside it read `D@cap`.  One walk computes the free names of every function (memo by id), one walk
+# rewrites.
+
+def _sub_exprs(e):
+    for x in e:
+        if isinstance(x, list) and x and isinstance(x[0], str) and x[0] in _EXPR_TAGS:
+            yield x
+        elif isinstance(x, list) and x and all(isinstance(y, list) and y and isinstance(y[0], str) and y[0] in _EXPR_TAGS for y in x):
+            for y in x:
+                yield y
+
+def _fn_free(f, memo):
+    if id(f) in memo:
+        return memo[id(f)]
+    bound = set()
+    for p in f["params"]:
+        bound.add(p["name"])
+        if p["ty"][0] in ("arr", "range", "slice"):
+            bound.update(p["dims"])
+    fr = set(_free(f["body"], memo))
+    for c in f["catches"]:
+        fr |= _free(c[1], memo)
+    fr -= bound
+    memo[id(f)] = fr
+    return fr
+
+def _free(e, memo):
+    """names used in e that e does not bind"""
+    t = e[0]
+    if t in ("var", "dimvar"):
+        return {e[1]}
+    if t in ("int", "long", "float", "double", "char", "str", "bool", "nil", "recnil", "enumval"):
+        return set()
+    if t == "seq":
+        out, bound = set(), set()
+        for it in e[1]:
+            if it[0] in ("let", "varb"):
+                out |= _free(it[2], memo) - bound; bound = bound | {it[1]}
+            elif it[0] == "funcs":
+                bound = bound | {f["name"] for f in it[1]}
+                for f in it[1]:
+                    out |= _fn_free(f, memo) - bound
+            else:
+                out |= _free(it[1], memo) - bound
+        return out
+    if t == "forin":
+        return _free(e[2], memo) | (_free(e[3], memo) - {e[1]})
+    if t == "lam":
+        f = e[1]
+        return _fn_free(f, memo) - ({f["name"]} if f["name"] else set())
+    if t in ("match", "iflet"):
+        gs = e[2] if t == "match" else [e[1]]
+        out = _free(e[1] if t == "match" else e[2], memo)
+        if t == "iflet" and e[3] is not None:
+            out |= _free(e[3], memo)
+        for g in gs:
+            if g[0] == "grec":
+                out |= _free(g[4], memo) - set(g[3])
+            else:
+                out |= _free(g[-1], memo)
+        return out
+    if t == "listcomp":
+        out, bound = set(), set()
+        for q in e[3]:
+            if q[0] == "gen":
+                out |= _free(q[2], memo) - bound; bound = bound | {q[1]}
+            else:
+                out |= _free(q[1], memo) - bound
+        return out | (_free(e[2], memo) - bound)
+    out = set()
+    for x in _sub_exprs(e):
+        out |= _free(x, memo)
+    return out
+
+def _dm_lookup(bs, name):
+    for i in range(len(bs) - 1, -1, -1):
+        if bs[i][0] == name:
+            return bs[i]
+    return None
+
+def _dm_func(bs, f, memo):
+    bs2 = list(bs)
+    for p in f["params"]:
+        bs2.append([p["name"], False, None])
+        if p["ty"][0] in ("arr", "range", "slice"):
+            for dn in p["dims"]:
+                bs2.append([dn, True, None])
+    g = dict(f)
+    g["body"] = _dm_expr(bs2, f["body"], memo)
+    g["catches"] = [(c[0], _dm_expr(bs2, c[1], memo)) for c in f["catches"]]
+    return g
+
+def _dm_closure(bs, fs, own, memo):
+    """functions `fs` created in scope bs (own = the names the group / the lambda binds): (let-items, scope for the rest
+    of the block, functions)"""
+    fr = set()
+    for f in fs:
+        fr |= _fn_free(f, memo)
+    fr -= set(own)
+    caps = sorted(n for n in fr if (_dm_lookup(bs, n) or [0, False])[1])
+    lets = [["let", n + "@cap", ["dimvar", n]] for n in caps]
+    after = list(bs) + [[l[1], False, None] for l in lets]       # the inserted bindings are binders of the block
+    inner = list(after) + [[n, False, n + "@cap"] for n in caps] + [[n, False, None] for n in own]
+    # (the alias entries are not binders: they only redirect the captured names inside the functions; `own` names are
+    # pushed by the caller for the rest of the block)
+    return lets, after, [_dm_func(inner, f, memo) for f in fs]
+
+def _dm_guard(bs, g, memo):
+    if g[0] == "gitem":
+        return ["gitem", g[1], g[2], _dm_expr(bs, g[3], memo)]
+    if g[0] == "gelse":
+        return ["gelse", _dm_expr(bs, g[1], memo)]
+    return ["grec", g[1], g[2], g[3], _dm_expr(bs + [[x, False, None] for x in g[3]], g[4], memo)]
+
+def _dm_expr(bs, e, memo):
+    t = e[0]
+    R = lambda x: _dm_expr(bs, x, memo)
+    if t == "var":
+        ent = _dm_lookup(bs, e[1])
+        if ent is None:
+            return e
+        if ent[1]:
+            return ["dimvar", e[1]]
+        return ["var", ent[2]] if ent[2] else e
+    if t in ("int", "long", "float", "double", "char", "str", "bool", "nil", "recnil", "enumval", "dimvar"):
+        return e
+    if t == "seq":
+        bs2, items = list(bs), []
+        for it in e[1]:
+            if it[0] in ("let", "varb"):
+                items.append([it[0], it[1], _dm_expr(bs2, it[2], memo)]); bs2.append([it[1], False, None])
+            elif it[0] == "funcs":
+                own = [f["name"] for f in it[1]]
+                lets, bs2, fs = _dm_closure(bs2, it[1], own, memo)
+                items.extend(lets)
+                bs2 = bs2 + [[n, False, None] for n in own]
+                items.append(["funcs", fs])
+            else:
+                items.append(["e", _dm_expr(bs2, it[1], memo)])
+        return ["seq", items]
+    if t == "forin":
+        return ["forin", e[1], R(e[2]), _dm_expr(bs + [[e[1], False, None]], e[3], memo)]
+    if t == "lam":
+        f = e[1]
+        lets, _, fs = _dm_closure(bs, [f], [f["name"]] if f["name"] else [], memo)
+        return ["seq", lets + [["e", ["lam", fs[0]]]]] if lets else ["lam", fs[0]]
+    if t == "match":
+        return ["match", R(e[1]), [_dm_guard(bs, g, memo) for g in e[2]]]
+    if t == "iflet":
+        return ["iflet", _dm_guard(bs, e[1], memo), R(e[2]), None if e[3] is None else R(e[3])]
+    if t == "listcomp":
+        bs2, qs = list(bs), []
+        for q in e[3]:
+            if q[0] == "gen":
+                qs.append(["gen", q[1], _dm_expr(bs2, q[2], memo)]); bs2.append([q[1], False, None])
+            else:
+                qs.append(["filter", _dm_expr(bs2, q[1], memo)])
+        return ["listcomp", e[1], _dm_expr(bs2, e[2], memo), qs]
+    out = []
+    for x in e:
+        if isinstance(x, list) and x and isinstance(x[0], str) and x[0] in _EXPR_TAGS:
+            out.append(R(x))
+        elif isinstance(x, list) and x and all(isinstance(y, list) and y and isinstance(y[0], str) and y[0] in _EXPR_TAGS for y in x):
+            out.append([R(y) for y in x])
+        else:
+            out.append(x)
+    return out
+
+_EXPR_TAGS = {"int", "long", "float", "double", "char", "str", "bool", "nil", "recnil", "var", "dimvar", "un", "bin", "and", "or",
+              "cond", "assign", "seq", "while", "dowhile", "for", "forin", "call", "builtin", "lam", "arrlit", "arrnew", "index",
+              "record", "tuple", "field", "enumval", "enumrec", "match", "iflet", "listcomp", "range", "slice", "pipe"}
+
+def mark_dim_uses(prog):
+    q = dict(prog)
+    top = [[f["name"], False, None] for f in prog["funcs"]]
+    memo = {}
+    q["funcs"] = [_dm_func(top, f, memo) for f in prog["funcs"]]
+    return q
+
 def prog_sexpr(prog):
+    prog = mark_dim_uses(prog)
     recs = [["rec", n] + [["f", fld[0] if fld[0] else "-", coarse(fld[1], prog)] for fld in fs] for n, fs in prog["recs"]]
     enums = []
     for n, items in prog["enums"]:
